@@ -233,6 +233,8 @@ var handLinkDocs = []string{
 	// a single input object where a list of input objects is expected (list input coercion), at the argument and nested
 	`{ lo(os: {r: 1, a: 2}) l2: lo(oo: {inner: {r: 1, b: [3]}, one: {r: 2}}) l3: lo(ooo: {inner: {r: 1}}) l4: lo(ooo: [{inner: [{r: 5}]}]) }`,
 	`query($v: Int!, $w: [Int]) { lo(os: {r: $v, b: $w}) l2: lo(oo: {inner: {r: $v, b: [$v]}}) }`,
+	// a variable used only by a directive of a fragment definition, reached through another fragment
+	`query B($u: Int) { ...G } fragment G on Query { a { ...F } } fragment F on A @fd(x: $u) { x }`,
 	// variables where no type guides the walk: inside lists and objects given to a custom scalar
 	`query($v: Int, $w: String) { f(i: $v, nn: 1) e1: any(x: [$v]) e2: any(x: {ids: [$v, [$w]]}) e3: any(x: [[$v], {k: $w}]) e4: any(x: $w) }`,
 	`query($v: Int) { f(i: $v, nn: 1) ...F } fragment F on Query { any(x: [1, [$v]]) }`,
